@@ -1,6 +1,7 @@
 package main
 
 import (
+	"go/types"
 	"encoding/hex"
 	"fmt"
 	"math/big"
@@ -693,4 +694,17 @@ func (hr *HarnessRun) Summary() string {
 func fatalf(format string, a ...interface{}) {
 	fmt.Fprintf(os.Stderr, format+"\n", a...)
 	os.Exit(2)
+}
+
+func init() {
+	reg := func(m string, f func(e *Exec, fn *ssa.Function, a []Value) Value) { intrinsics[vrtKey(m)] = f }
+	opq := func(kind string) Value {
+		return IfaceV{T: types.NewPointer(errDynType), V: OpaqueV{Kind: kind}}
+	}
+	reg("StoreService", func(e *Exec, fn *ssa.Function, a []Value) Value { return opq("storeservice") })
+	reg("Ctx", func(e *Exec, fn *ssa.Function, a []Value) Value { return &CtxV{F: map[string]Value{}} })
+	reg("Codec", func(e *Exec, fn *ssa.Function, a []Value) Value { return opq("codec") })
+	reg("AddressCodec", func(e *Exec, fn *ssa.Function, a []Value) Value { return opq("addrcodec") })
+	reg("Logger", func(e *Exec, fn *ssa.Function, a []Value) Value { return opq("logger") })
+	reg("GasUsed", func(e *Exec, fn *ssa.Function, a []Value) Value { return e.store_().Gas })
 }
